@@ -109,10 +109,12 @@ impl<T: High + Low + Close + Volume> Next<&T> for MoneyFlowIndex {
             }
         } else {
             let popped = self.deque[self.index];
+            // Rounding may leave the running totals slightly below zero once the
+            // flows they were built from have all been popped again.
             if popped.is_sign_positive() {
-                self.total_positive_money_flow -= popped;
+                self.total_positive_money_flow = (self.total_positive_money_flow - popped).max(0.0);
             } else {
-                self.total_negative_money_flow += popped;
+                self.total_negative_money_flow = (self.total_negative_money_flow + popped).max(0.0);
             }
         }
 
@@ -129,9 +131,14 @@ impl<T: High + Low + Close + Volume> Next<&T> for MoneyFlowIndex {
         }
         self.previous_typical_price = tp;
 
-        self.total_positive_money_flow
-            / (self.total_positive_money_flow + self.total_negative_money_flow)
-            * 100.0
+        let total_money_flow = self.total_positive_money_flow + self.total_negative_money_flow;
+        if total_money_flow == 0.0 {
+            // No money flow in the window (flat prices or zero volume): neutral value
+            // instead of 0 / 0.
+            return 50.0;
+        }
+
+        self.total_positive_money_flow / total_money_flow * 100.0
     }
 }
 
